@@ -69,6 +69,7 @@ func TestC13(t *testing.T) {
 		noteCase("C13", "pc", p.JSON())
 		res := Guard(func() Result { return RunC13(p) })
 		rec.Case(p.JSON(), harness.HashBytes(p.JSON()), res.Counters, res.Nontrivial, res.V)
+		abortOnHang(rec, res.V)
 		if res.V != nil {
 			rt.Fatalf("C13 violated: %v", res.V)
 		}
